@@ -42,7 +42,7 @@ TIERS = {
                                   "c08.predraw_batch", "c08.multilevel_run"]},
     "thorough": {"worlds": 16000, "wall": 3300, "shrink_budget": 150,
                  "required_probes": ["c08.run_completed", "c08.repeat_compared", "pool.worker_ran_2plus_tasks",
-                                     "c08.predraw_batch", "c08.multilevel_run", "c08.same_second_seedings",
+                                     "c08.predraw_batch", "c08.multilevel_run",
                                      "pool.idle_worker", "pool.task_of_one_item"]},
 }
 
